@@ -291,19 +291,24 @@ StateAndCovariance = namedtuple("StateAndCovariance", ["state", "covariance"])
 
 
 def assert_valid_covariance(
-    covariance: NDArray, *, name: str = "Covariance", negative_tol: float = -1e-15
+    covariance: NDArray, *, name: str = "Covariance", negative_tol: float = -1e-9
 ):
     """
     Check that the covariance array is well formed:
 
     - symmetric (approximately)
     - positive semidefinite (approximately)
+
+    negative_tol is relative to the magnitude of the matrix: rounding in the
+    update equations leaves eigenvalues of a singular (exactly correlated)
+    covariance slightly below zero.
     """
     assert isinstance(covariance, np.ndarray)
     assert np.allclose(covariance, covariance.T)
 
-    covariance_eigenvalues = np.linalg.eig(covariance)[0]
-    if np.any(covariance_eigenvalues < negative_tol):
+    scale = max(1.0, float(np.max(np.abs(covariance)))) if covariance.size else 1.0
+    covariance_eigenvalues = np.linalg.eigvalsh((covariance + covariance.T) / 2.0)
+    if np.any(covariance_eigenvalues < negative_tol * scale):
         # negative definite matrix is not a valid representation of uncertainty
         raise AssertionError(
             f"Negative {str(name)}:\n{covariance}\nEigen Values: {min(covariance_eigenvalues)}\n{covariance_eigenvalues}"
